@@ -185,8 +185,8 @@ class HybridCache(_CacheBase):
     def _expire(self) -> None:
         """Invalidate the entry with the lowest score based on the access frequency."""
         # Calculate normalized access frequencies and computation durations
-        total_access_count = sum(self._access_counts.values())
-        total_duration = sum(self._computation_durations.values())
+        total_access_count = sum(self._access_counts.values()) or 1
+        total_duration = sum(self._computation_durations.values()) or 1
         normalized_access_counts = {
             k: v / total_access_count for k, v in self._access_counts.items()
         }
